@@ -30,8 +30,17 @@ META = {
                    'All 7 dialects at full strength (MaxDB foreign keys with their table-level clause included).  Plus: the '
                    'extracted ON DELETE texts read back as the cascade setting, link table created by exactly one class of a '
                    'pair (counter-theorem for a join declared by the later class only), create-if-missing / drop-if-present '
-                   'idempotent over a catalogue model, addColumn/delColumn preserve the other columns, Style name-mapping lemmas.'),
-    'level_note': ('Trusted: Lean kernel; extractor vlib/extractors/ddl.py; the DDL reader Model/DdlRead.lean is the '
+                   'idempotent over a catalogue model, addColumn/delColumn preserve the other columns, Style name-mapping lemmas.  '
+                   'TRANSLATED SOURCE: vlib/extractors/pyddl.py translates the renderers from the AST on every run (col.py column '
+                   'classes with dynamic dispatch through the class table, dbconnection.py + the seven connection classes, '
+                   'styles.py, SQLObject._getJoinsToCreate / createJoinTablesSQL) into a PyDdl program; the C14_translated_* '
+                   'theorems prove the translated functions equal to the hand model for all declarations / dialects / styles '
+                   '(createTableSQL + constraints, createColumns, every col.<dialect>CreateSQL, createIDColumn, reference '
+                   'constraints, join tables, joins to create, mixedToUnder / underToMixed / the Style classes) and restate '
+                   'the skeleton, round-trip and injectivity theorems about the translated source.'),
+    'level_note': ('Trusted: Lean kernel; extractor vlib/extractors/ddl.py; the translator vlib/extractors/pyddl.py and the reference '
+                   'semantics of the embedding Model/PyDdl.lean (interface assumptions: header of Model/DdlX.lean - sqlrepr of enum '
+                   'values, findClass, connection capabilities, decimal rendering, ASCII lower/upper); the DDL reader Model/DdlRead.lean is the '
                    'specification side (written from SQL lexical rules; cross-checked against an independent Python reader '
                    'and, for SQLite, against the engine through PRAGMA introspection); MySQL/PostgreSQL/Firebird/MSSQL/'
                    'Sybase/MaxDB servers are not available: their DDL is compared as text only.'),
@@ -42,7 +51,10 @@ META = {
                 'SQLite PRAGMA introspection as ground truth for the executed dialect'],
     'modelled': ['SQLite engine (executed, not verified)', 'the six other servers: text only',
                  'sqlrepr string-literal escaping is modelled locally (per-character map) and tied by string equality',
-                 'index / join-table / ALTER TABLE constraint texts are hand-modelled and tied by string equality'],
+                 'index texts are hand-modelled and tied by string equality (join-table and ALTER TABLE constraint texts are also '
+                 'translated and proved equal to the model)',
+                 'not translated: SQLObject.createTable / dropTable / createJoinTables (stateful; catalogue model + executed SQLite '
+                 'scenarios), the __init__ methods of the column classes, DBAPI.createSQL (sqlmeta.createSQL)'],
     'assumptions': ['well-formed identifiers (decidable hypothesis `declWF`): table / id / db names and foreign-key target names are '
                     'non-empty words without blanks, quotes, commas or parentheses and are not constraint keywords; defaultSQL is a '
                     'self-contained keyword-free fragment for the reader; the renderer did not refuse the declaration (EnumCol on '
